@@ -128,6 +128,15 @@ def _get_autoincrement_column(table: "Table"):
         return table._autoincrement_column
 
 
+def _iterate_columns(columns: "ColumnCollection"):
+    # attribute of joined table inheritance child is mapped to columns of several tables (e.g. primary keys)
+    seen = set()
+    for attr_name, column in columns.items():
+        if attr_name not in seen:
+            seen.add(attr_name)
+            yield attr_name, column
+
+
 def _get_input_shape(
     tp: TypeHint,
     table: "Table",
@@ -140,7 +149,7 @@ def _get_input_shape(
     fields = []
     params = []
     # name of column can differ from name of mapped attribute: mapped_column("column_name")
-    for attr_name, column in columns.items():
+    for attr_name, column in _iterate_columns(columns):
         if not isinstance(column, sqlalchemy.Column):
             continue
 
@@ -209,7 +218,7 @@ def _get_output_shape(
             original=IdWrapper(column),
             accessor=create_attr_accessor(attr_name, is_required=True),
         )
-        for attr_name, column in columns.items()
+        for attr_name, column in _iterate_columns(columns)
         if isinstance(column, sqlalchemy.Column)
     ]
     for relationship in relationships:
